@@ -472,7 +472,8 @@ def pipeline_cases(ctx):
     n_b, n_s = (500, 400) if ctx.thorough else (45, 20)
     refs = refs_for(ctx, 'zh-pipeline-refs', n_b, n_s, MUST[:6])
     cases = []
-    special = [('今天', 0), ('明天', 1), ('后天', 2), ('大后天', 3), ('昨天', -1), ('前天', -2), ('大前天', -3), ('今日', 0), ('明日', 1), ('昨日', -1)]
+    special = [('今天', 0), ('明天', 1), ('后天', 2), ('大后天', 3), ('昨天', -1), ('前天', -2), ('大前天', -3), ('今日', 0), ('明日', 1), ('昨日', -1),
+               ('後天', 2), ('大後天', 3)]
     for i, R in enumerate(refs):
         for w, k in (special if i % 4 == 0 else special[:7]):
             cases.append((w, R, 'special', k))
@@ -485,7 +486,8 @@ def pipeline_cases(ctx):
                     cases.append((pre + stem + wc, R, 'weekday', (k, wd)))
         for w, fam, k in (('这周', 'week', 0), ('本周', 'week', 0), ('下周', 'week', 1), ('上周', 'week', -1), ('这个月', 'month', 0),
                           ('本月', 'month', 0), ('下个月', 'month', 1), ('上个月', 'month', -1), ('今年', 'year', 0), ('明年', 'year', 1),
-                          ('去年', 'year', -1), ('下周末', 'weekend', 1), ('上周末', 'weekend', -1), ('这周末', 'weekend', 0)):
+                          ('去年', 'year', -1), ('下周末', 'weekend', 1), ('上周末', 'weekend', -1), ('这周末', 'weekend', 0),
+                          ('前年', 'year', -2), ('后年', 'year', 2), ('本年', 'year', 0)):
             cases.append((w, R, fam, k))
         ns = [1, 2, 7, 30, 100, 365, 5000] if i < 6 else [r.choice([1, 2, 7, 30, 365, 5000]), r.randint(1, 5000)]
         for n in ns:
@@ -497,11 +499,22 @@ def pipeline_cases(ctx):
             cases.append(('%d年后' % n, R, 'agoY', (n, 1)))
             cases.append(('%d个月前' % n, R, 'agoM', (n, -1)))
             cases.append(('%d个月后' % n, R, 'agoM', (n, 1)))
+        for n in ([1, 3, 30] if i < 6 else [r.randint(1, 400)]):
+            for pre, hp in (('前', 1), ('过去', 1), ('未来', 0), ('之后', 0)):
+                for uw, u in (('天', 'D'), ('周', 'W')):
+                    if i >= 6 and (len(pre) + n + (u == 'W')) % 2:
+                        continue
+                    cases.append(('%s%d%s' % (pre, n, uw), R, 'nwu', (u, n, hp, 1 - hp)))
         for b, e in ((1, 5), (10, 20)):
             for mw in ('5月', '这个月', '下个月', '上个月'):
                 cases.append(('%s%d日到%d日' % (mw, b, e), R, 'simple', (mw, b, e)))
         cases.append(('%d年第四季度' % R.year, R, 'quarter', (R.year, 4)))
     return cases
+
+
+def _pad(s):
+    y, m, d = s.split('@')[0].split('-')
+    return '%04d-%02d-%02d' % (int(y), int(m), int(d))
 
 
 def ago_my_oracle(fam, par, R):
@@ -523,6 +536,8 @@ def pipeline(ctx):
     cases = pipeline_cases(ctx)
     res = dtpipe.run([('zh-cn', c[0], c[1]) for c in cases])
     triple_ents, triple_idx = [], []
+    nwu = [i for i, c in enumerate(cases) if c[2] == 'nwu']
+    nwu_model = dict(zip(nwu, common.driver(['zh.dur\t%s\t%s\t%d\t%d\t%d' % ((ref_fields(cases[i][1]),) + cases[i][3]) for i in nwu]))) if nwu else {}
     for i, ((text, R, fam, par), got) in enumerate(zip(cases, res)):
         ctx.count('zh-pipeline:' + fam)
         ent = None
@@ -559,6 +574,13 @@ def pipeline(ctx):
                 text, fi['reference'], vals, par[0], 'months' if fam == 'agoM' else 'years', 'before' if par[1] < 0 else 'after', want),
                 failing_input=fi, property_fails=True)
         elif ent:
+            if fam == 'nwu':      # pipeline vs the model's prediction (the resolution prints the dates of the values)
+                f = nwu_model[i].split('\t')
+                mv = [{'timex': f[0], 'type': 'daterange', 'start': _pad(f[1]), 'end': _pad(f[2])}] if len(f) == 5 else nwu_model[i]
+                fi['model'] = mv
+                if vals != mv:
+                    ctx.report('correspondence', 'zh-pipeline-nwu', '%r (zh-cn) at %s: implementation %r, model %r' % (text, fi['reference'], vals, mv),
+                               failing_input=fi)
             triple_ents.append(ent)
             triple_idx.append((i, fi))
     for (i, fi), e, (tn, vs) in zip(triple_idx, triple_ents, dtcorpus.evaluate_wf(triple_ents)):
